@@ -5,6 +5,7 @@ import ThriftVerif.Schema.Text
 import ThriftVerif.Schema.WireEq
 import ThriftVerif.Schema.GoType
 import ThriftVerif.Gen.Naming
+import ThriftVerif.Schema.Lazy
 
 open ThriftVerif.Wire ThriftVerif.Schema
 
@@ -79,6 +80,16 @@ def step (env : Env) (line : String) : Env × String :=
       | some bs =>
         match decodeS env (fuelFor bs + 64) t bs with
         | .ok (g, r) => (env, s!"ok {bs.length - r.length} {g.text}")
+        | .error e => (env, errText' e)
+      | none => (env, "bad-op")
+    | _ => (env, "bad-op")
+  | "valuepath" :: rest =>
+    match parseTy (rest.length + 2) rest with
+    | some (t, [hex]) =>
+      match bytesOfHex hex with
+      | some bs =>
+        match valuePath env (fuelFor bs + 64) t bs with
+        | .ok (g, s') => (env, s!"ok {bs.length - s'.1.length + s'.2} {g.text}")
         | .error e => (env, errText' e)
       | none => (env, "bad-op")
     | _ => (env, "bad-op")
